@@ -119,6 +119,7 @@ Proof.
   rewrite find_include_norm. destruct (find_include fs (n, this, false) p) as [p1 res] eqn:Ef.
   destruct (find_include_spec fs _ _ _ _ Hm Ef) as (_ & Hm1 & _).
   destruct res as [f|]; [|apply IH; exact Hm1].
+  destruct (mem_path f (once p1)); [apply IH; exact Hm1|].
   destruct (run_file_A norm (fs_get fs) fuel f p1) as [p2|e] eqn:E; [|discriminate].
   destruct (run_file_norm_M _ _ _ _ (found_normal _ _ _ _ Ef Hm) Hm1 E) as [-> Hm2]. apply IH. exact Hm2.
 Qed.
